@@ -463,6 +463,21 @@ pub fn check_scenario(_ctx: &Ctx, sc: &Scenario, t: &mut Tally) {
         Out::Panic(m) => t.violation("C15.indicator_panicked", format!("incorpora_demanda_renovable_acs_nrb panicked: {m}"), || wit(json!({}))),
         _ => {}
     }
+    // ... also when the result comes with a `misc` map left by an earlier evaluation (a result read back from JSON, a
+    // result object reused): the stale key of the other kind must go
+    {
+        let mut stale = ep.clone();
+        stale.misc = serde_json::from_value(json!({"fraccion_renovable_demanda_acs_nrb": "0.123", "error_acs": "ERROR: de una evaluación anterior", "otra_clave": "se conserva"})).ok();
+        if let Out::Ok(ep3) = safe::guard_plain(|| cte::incorpora_demanda_renovable_acs_nrb(stale)) {
+            let m = ep3.misc.as_ref();
+            let has_v = m.map(|m| m.contains_key("fraccion_renovable_demanda_acs_nrb")).unwrap_or(false);
+            let has_e = m.map(|m| m.contains_key("error_acs")).unwrap_or(false);
+            if has_v == has_e || has_v != got.is_ok() {
+                t.violation("C15.misc_keys", format!("a result that carried both keys from an earlier evaluation: after the indicator is recorded again misc has value key: {has_v}, error key: {has_e}; the indicator itself returned {}", got.describe()), || wit(json!({})));
+            }
+            t.count("misc_maps_with_stale_keys_checked");
+        }
+    }
     // ---- invariances
     if let Some(v) = value {
         let mut r = Rng::new(case.sub_seed);
